@@ -83,7 +83,8 @@ TProcess == /\ Log[l].a = "Process"
                           /\ orders' = [orders EXCEPT ![c] = After(@, k)]
                           /\ UNCHANGED <<home, feed, sends, link>>
                           \* the answer must come back in the name of the exchange the request went to
-                          /\ Note(IF x = r.x THEN {} ELSE {"wrong_exchange"})
+                          \* (the event's own stamp and the exchange inside the order key it carries: both)
+                          /\ Note(IF x = r.x /\ Log[l].key_x = r.x THEN {} ELSE {"wrong_exchange"})
 MarketUp(r, x) == x \in DOMAIN r.market /\ r.market[x]
 ConnOf(r) == [x \in EXCH |-> IF x \in DOMAIN r.conn /\ r.conn[x] THEN "up" ELSE "down"]
 TState == /\ Log[l].a = "State"
